@@ -154,6 +154,18 @@ CLAIMS = {
         design="6 C01 (pure-function exception of the method)",
         technique="type table and case space in TLA+, TLC enumerates the cases, one implementation run per case judged by TLC (values inside a class are sampled)",
     ),
+    "C17": dict(
+        spec="FsServer.tla / FsServerGen.tla / FsServerJudge.tla",
+        text="TLC model-checks the server specification (sessions by token with their own database and variables, shared vs "
+        "isolated data visibility, 401 frame condition, a query = the in-process step) and generates login / query histories "
+        "over up to three tokens, every statement kind in both login modes and repeated statements with DDL in between; they "
+        "are replayed against a real uvicorn server through the real connector with a mirrored in-process connection, and TLC "
+        "judges visibility, variables, 401 answers and the agreement of rows / classes / description / rowcount / error. All "
+        "10^6 microsecond fractions x 4 epochs x {NTZ, TZ} are pushed through the Arrow struct encoder against the closed form.",
+        design="6 C17",
+        quick="VERIF_NPROC=8 ./vcheck C17 --tier quick", thorough="VERIF_NPROC=8 ./vcheck C17 --tier thorough",
+        technique="explicit TLA+ spec + TLC model checking; TLC-generated request histories replayed over HTTP and judged by TLC; exhaustive fraction sweep",
+    ),
 }
 
 
@@ -163,8 +175,8 @@ def main():
     for pid, c in CLAIMS.items():
         checks.append({
             "property_id": pid,
-            "quick_cmd": f"./vcheck {pid} --tier quick",
-            "thorough_cmd": f"./vcheck {pid} --tier thorough",
+            "quick_cmd": c.get("quick", f"./vcheck {pid} --tier quick"),
+            "thorough_cmd": c.get("thorough", f"./vcheck {pid} --tier thorough"),
             "evidence_file": f"/verif/evidence/{pid}.json",
             "replay_cmd_template": f"./vcheck {pid} --replay {{path}}",
             "engine": "tlc",
